@@ -545,6 +545,7 @@ func run(c *mc.Ctx) {
 	must("cancelling-pair(S-1,k2)", "zip215", false)
 
 	expandedVsSingle(c)
+	expandedReuse(c)
 	batchHistories(c)
 	batchMacro(c)
 	cachedClosure(c)
@@ -580,6 +581,96 @@ func expandedVsSingle(c *mc.Ctx) {
 		if k := e.CompressedY(); !bytes.Equal(k[:], cs.pk) {
 			w.Fail("ExpandedPublicKey.CompressedY", cs.name+": CompressedY differs from the key bytes", nil)
 		}
+	})
+}
+
+// ---- one precomputed key object used many times --------------------------------
+//
+// Each index owns ONE ExpandedPublicKey (and one caching verifier holding it) and runs a fixed sequence of
+// verifications through it: honest signatures on 24 messages (the lattice coefficient d0 of the triple product takes
+// both signs over them), one bad signature, every option set, then a batch whose entries share the object, then the
+// singles again.  Every decision must equal plain verification.  A routine that scribbles on the shared precomputed
+// table (negates it in place, rebuilds it lazily) is right the first time and wrong on a later use; because the whole
+// sequence lives in one index it replays on its own.
+func expandedReuse(c *mc.Ctx) {
+	nKeys := c.Pick(4, 12)
+	c.Par("expanded-reuse", nKeys, func(w *mc.W, ki int) {
+		sg := newSigner(mc.Bytes(c.Seed, "c09reuse", ki, 32))
+		sk := ed25519.NewKeyFromSeed(sg.seed)
+		epk, err := ed25519.NewExpandedPublicKey(sg.pk)
+		if err != nil {
+			w.Fail("NewExpandedPublicKey", "honest key rejected", nil)
+			return
+		}
+		cv := cache.NewVerifier(cache.NewLRUCache(1))
+		cv.AddPublicKey(sg.pk)
+		type sm struct{ m, sig []byte }
+		var sms []sm
+		for j := 0; j < 24; j++ {
+			m := []byte(fmt.Sprintf("reuse message %d/%d", ki, j))
+			sms = append(sms, sm{m, ed25519.Sign(sk, m)})
+		}
+		bad := append([]byte{}, sms[0].sig...)
+		bad[33] ^= 0x40
+		sms = append(sms, sm{sms[0].m, bad})
+		round := func(tag string) {
+			for j, x := range sms {
+				for oi, os := range optSets {
+					if os.o.Context != "" || os.o.Hash != 0 {
+						continue
+					}
+					want, wp := func() (ok bool, p bool) {
+						defer func() {
+							if recover() != nil {
+								ok, p = false, true
+							}
+						}()
+						return ed25519.VerifyWithOptions(sg.pk, x.m, x.sig, os.o), false
+					}()
+					got, gp := func() (ok bool, p bool) {
+						defer func() {
+							if recover() != nil {
+								ok, p = false, true
+							}
+						}()
+						return ed25519.VerifyExpandedWithOptions(epk, x.m, x.sig, os.o), false
+					}()
+					if got != want || gp != wp {
+						w.Fail("VerifyExpandedWithOptions/reused-key", fmt.Sprintf("key %d, %s, signature %d under %s: the reused expanded key says %v, plain verification %v", ki, tag, j, optSets[oi].name, got, want), map[string]interface{}{"key": ki, "step": tag, "sig": j})
+						return
+					}
+					if wp {
+						continue
+					}
+					if cg := cv.VerifyWithOptions(sg.pk, x.m, x.sig, os.o); cg != want {
+						w.Fail("cache.Verifier/reused-key", fmt.Sprintf("key %d, %s, signature %d under %s: cached decision %v, plain %v", ki, tag, j, optSets[oi].name, cg, want), nil)
+						return
+					}
+				}
+			}
+		}
+		round("first round")
+		// a batch whose entries all share the object; the bad entry forces the serial fallback through it
+		bv := ed25519.NewBatchVerifier()
+		for _, x := range sms {
+			bv.AddExpanded(epk, x.m, x.sig)
+		}
+		all, each := bv.Verify(zeroR{})
+		for j := range sms {
+			want := j != len(sms)-1
+			if len(each) != len(sms) || each[j] != want {
+				w.Fail("BatchVerifier.Verify/shared-expanded-key", fmt.Sprintf("key %d: batch entry %d reported %v, single verification %v", ki, j, len(each) == len(sms) && each[j], want), nil)
+				return
+			}
+		}
+		if all {
+			w.Fail("BatchVerifier.Verify/overall", "batch with a bad entry reported all valid", nil)
+		}
+		round("after the batch")
+		if k := epk.CompressedY(); !bytes.Equal(k[:], sg.pk) {
+			w.Fail("ExpandedPublicKey/modified", "CompressedY changed after use", nil)
+		}
+		w.Eval("expanded-reuse", true)
 	})
 }
 
